@@ -3,6 +3,7 @@ import os, sys, time, traceback, importlib, multiprocessing as mp, queue, collec
 import z3
 from .engine import Engine, RustPanic, BoundExceeded, Infeasible, Unsupported
 from . import models as std_models
+from . import models_std2
 
 _ENGINES = {}     # feature-key -> Engine   (built in the master before fork, inherited copy-on-write)
 _JOBS = []
@@ -24,6 +25,7 @@ def register_engine(key, engine):
 def make_engine(mir_text, src_root, features=(), src_globs=('lib/src/**/*.rs',), extra_models=()):
     e = Engine(mir_text, src_root, src_globs=src_globs, features=features)
     std_models.install(e)
+    models_std2.install(e)
     for m in extra_models: m.install(e)
     return e
 
